@@ -128,6 +128,60 @@ def flow_programs(ctx, suite, parts_q, parts_t, n_q, n_t, profile="release", ext
     return files
 
 
+def table_file(kt=64):
+    return ensure_gen(f"table-{kt}.json", "GenTable", extra_env={"KT": str(kt)})
+
+
+def flow_symwalk(ctx, acts=None, mode="both", nreg=2, k=4, rescale=True, groups=("G1", "G2"), label="symgroup"):
+    """R: TLC explores the symbolic group machine exhaustively and prints every transition; the driver executes them on
+    the real library (constructively for every pre-state, and by a breadth-first walk with real histories)."""
+    t0 = time.time()
+    cfg = f"{BUILD}/tr/{ctx.pid}-{label}.cfg"
+    os.makedirs(os.path.dirname(cfg), exist_ok=True)
+    with open(cfg, "w") as f:
+        f.write(f"CONSTANTS K = {k}\nNReg = {nreg}\nScalars <- MCScalars\nWithRescale = {'TRUE' if rescale else 'FALSE'}\n"
+                "INIT Init\nNEXT Next\nINVARIANT TypeOK\nCHECK_DEADLOCK FALSE\n")
+    o, rc, dt = run_tlc("MC_SymGroup", cfg=cfg, workers=4, timeout=1800, xmx="6g", tag=ctx.pid + "-sym")
+    sg, sd = tlc_counts(o)
+    if rc != 0 or "No error has been found" not in o:
+        raise ToolError("SymGroup model check failed:\n" + o[-2000:])
+    trans = tlc_user_lines(o, "T")
+    if acts is not None:
+        trans = [t for t in trans if t["act"] in acts]
+    if not trans:
+        raise ToolError("SymGroup produced no transitions")
+    tfile = f"{ctx.dir}/{label}.trans"
+    with open(tfile, "w") as f:
+        for t in trans:
+            f.write(json.dumps(t) + "\n")
+    tab = table_file()
+    binp = build_harness("release")
+
+    def one(g):
+        outp = f"{ctx.dir}/{label}-{g}"
+        r = sh([binp, "symwalk", "--out", outp, "--in", tfile, "--table", tab, "--focus", g, "--mode", mode, "--seed", str(ctx.seed)], timeout=7200, check=False)
+        if r.returncode != 0:
+            raise ToolError(f"symwalk {g} failed: {r.stdout[-1500:]}")
+        return g, json.load(open(outp + ".result.json"))
+
+    with cf.ThreadPoolExecutor(max_workers=2) as ex:
+        results = list(ex.map(one, groups))
+    ctx.states += sd
+    ctx.transitions += sg
+    for g, r in results:
+        ctx.traces += r["constructive_executed"] + r["walk_executed"]
+        for m in r["first_mismatches"]:
+            act = m.get("act", ["?"])[0] if isinstance(m.get("act"), list) else "?"
+            ctx.violations.append({"flow": "R", "suite": "symwalk", "op": f"sym.{act}", "why": m.get("why", "mismatch"),
+                                   "event": {"op": f"sym.{act}", "G": g, "transition": m},
+                                   "params": {"acts": sorted(acts) if acts else None, "mode": mode, "nreg": nreg, "k": k, "rescale": rescale, "groups": [g], "seed": ctx.seed}})
+        rr = dict(r)
+        rr.pop("first_mismatches", None)
+        ctx.flows.append(dict(flow="R", model="SymGroup", tlc_states_generated=sg, tlc_distinct_states=sd, wall_s=round(time.time() - t0, 1), **rr))
+    if len(ctx.samples) < 6:
+        ctx.samples.append({"sym_transition": trans[len(trans) // 2]})
+
+
 # ------------------------------------------------------------------------------------------------ flow: Level-B / generic model check
 def flow_model(ctx, module, cfg=None, workers=8, timeout=1200, xmx="6g", label=None, must_hold=True, consts=None):
     """Model-check a specification module with TLC. A failure is reported as MODEL-FAIL in the evidence (and makes the
@@ -147,7 +201,7 @@ def flow_model(ctx, module, cfg=None, workers=8, timeout=1200, xmx="6g", label=N
 
 # ------------------------------------------------------------------------------------------------ properties
 def p_C06(ctx):
-    flow_trace(ctx, "fp", 24000, 400000, chunk=6000)
+    flow_trace(ctx, "fp", 40000, 400000, chunk=6000)
 
 
 def p_C12(ctx):
@@ -164,18 +218,22 @@ def twist_file(ctx, npts):
 
 def p_C04(ctx):
     flow_trace(ctx, "group", 6000, 120000, chunk=500, extra=["--focus", "law"])
+    flow_symwalk(ctx, acts={"add", "sub", "neg", "gen", "zero"}, mode="constructive")
 
 
 def p_C05(ctx):
     flow_trace(ctx, "group", 3000, 60000, chunk=250, extra=["--focus", "mul"])
+    flow_symwalk(ctx, acts={"mul"}, mode="constructive")
 
 
 def p_C15(ctx):
     flow_trace(ctx, "group", 6000, 120000, chunk=500, extra=["--focus", "eq"])
+    flow_symwalk(ctx, acts={"observe", "normalize", "affrt", "rescale"}, mode="constructive")
 
 
 def p_C10(ctx):
     flow_trace(ctx, "encode", 3000, 60000, chunk=300)
+    flow_symwalk(ctx, acts={"codec"}, mode="constructive")
 
 
 def p_C08(ctx):
@@ -212,6 +270,12 @@ def p_C03(ctx):
 
 
 def p_C16(ctx):
+    # exhaustive small scope: the whole state graph of the symbolic machine, walked with real histories (no explicit rescaling)
+    if ctx.quick():
+        flow_symwalk(ctx, mode="both", nreg=2, k=4, rescale=False)
+    else:
+        flow_symwalk(ctx, mode="walk", nreg=3, k=2, rescale=False)
+        flow_symwalk(ctx, mode="both", nreg=2, k=6, rescale=False, label="symgroup-k6")
     flow_programs(ctx, "gmachine", 12, 42, 400, 3000, extra=["--focus", "group"], label="gm-group")
     flow_programs(ctx, "gmachine", 6, 28, 250, 1500, extra=["--focus", "pair"], label="gm-pair")
 
@@ -240,7 +304,7 @@ def flow_dual(ctx, suite, nq, nt, chunk, extra=(), label=None):
 
 def p_C18(ctx):
     tw = twist_file(ctx, 2 if ctx.quick() else 8)
-    flow_dual(ctx, "fp", 6000, 100000, 6000)
+    flow_dual(ctx, "fp", 6000, 100000, 6000, extra=["--focus", "nosweep"])
     flow_dual(ctx, "fq2", 3000, 50000, 3000)
     flow_dual(ctx, "conv", 10 ** 9, 10 ** 9, 4000)
     flow_dual(ctx, "sqrt", 800, 8000, 400)
@@ -405,6 +469,16 @@ def replay_file(path):
             flow_trace(ctx, p["suite"], p["n"], p["n"], profile=p.get("profile", "release"), extra=p.get("extra", ()))
         same = [v for v in ctx.violations if v.get("op") == r.get("op")]
         print(f"replay of {path}: {len(ctx.violations)} mismatching event(s), {len(same)} with op {r.get('op')}")
+        if same:
+            print(f"VIOLATION property={pid} replay={path}")
+            return 1
+        return 0
+    if r.get("flow") == "R":
+        ctx = Ctx(pid + "-replay", "quick", p.get("seed", 1))
+        flow_symwalk(ctx, acts=set(p["acts"]) if p.get("acts") else None, mode=p.get("mode", "both"), nreg=p.get("nreg", 2), k=p.get("k", 4),
+                     rescale=p.get("rescale", True), groups=tuple(p.get("groups", ("G1", "G2"))))
+        same = [v for v in ctx.violations if v.get("op") == r.get("op")]
+        print(f"replay of {path}: {len(ctx.violations)} mismatching transition(s), {len(same)} with action {r.get('op')}")
         if same:
             print(f"VIOLATION property={pid} replay={path}")
             return 1
